@@ -23,33 +23,48 @@ T3(a, b, c) == TupV(<<IntV(a), IntV(b), IntV(c)>>)
 
 \* ---------------------------------------------------------------- (A) shadowing grid
 Outer == [hidden |-> H(1), const |-> I(1)]
-InnerDecl == [set |-> <<Set("x", H(2))>>,
-              destruct |-> <<Destruct(<<"x", "z">>, TupE(<<H(2), H(3)>>))>>,
+InnerDeclF(two) == [set |-> <<Set("x", two)>>,
+              destruct |-> <<Destruct(<<"x", "z">>, TupE(<<two, H(3)>>))>>,
               fndecl |-> <<FnDecl("xf", <<>>, WInt, <<Ret(I(2))>>), Set("x", CallE(V("xf"), <<>>))>>]
+InnerDecl == InnerDeclF(H(2))
 Rec == Asg("=", V("inside"), V("x"))
-Construct(c, decl) ==
+\* `two' is the expression that yields the inner value 2 (hidden call, or a captured name inside a closure);
+\* `five' the scrutinee of constructs that do not bind x themselves
+ConstructF(c, decl, two, five) ==
   CASE c = "block"   -> <<Block(decl \o <<Rec>>)>>
     [] c = "mod"     -> <<Set("m", ModE(decl \o <<Rec>>))>>
-    [] c = "if"      -> <<If(Bin("==", H(1), I(1)), Block(decl \o <<Rec>>), Block(<<I(0)>>))>>
-    [] c = "else"    -> <<If(Bin("==", H(1), I(2)), Block(<<I(0)>>), Block(decl \o <<Rec>>))>>
-    [] c = "ifset"   -> <<IfSet("y", WInt, H(5), Block(decl \o <<Rec>>), NoneV)>>
-    [] c = "ifset-x" -> <<IfSet("x", WInt, H(2), Block(<<Rec>>), NoneV)>>          \* the bound name itself
-    [] c = "match-ty" -> <<Match(H(5), <<ArmTy("y", WInt, Block(decl \o <<Rec>>))>>)>>
-    [] c = "match-ty-x" -> <<Match(H(2), <<ArmTy("x", WInt, Block(<<Rec>>))>>)>>
-    [] c = "match-val" -> <<Match(H(5), <<ArmVal(<<I(5)>>, Block(decl \o <<Rec>>)), ArmOther(Block(<<I(0)>>))>>)>>
-    [] c = "match-other" -> <<Match(H(5), <<ArmVal(<<I(6)>>, Block(<<I(0)>>)), ArmOther(Block(decl \o <<Rec>>))>>)>>
+    [] c = "if"      -> <<If(Bin("==", five, I(5)), Block(decl \o <<Rec>>), Block(<<I(0)>>))>>
+    [] c = "else"    -> <<If(Bin("==", five, I(2)), Block(<<I(0)>>), Block(decl \o <<Rec>>))>>
+    [] c = "ifset"   -> <<IfSet("y", WInt, five, Block(decl \o <<Rec>>), NoneV)>>
+    [] c = "ifset-x" -> <<IfSet("x", WInt, two, Block(<<Rec>>), NoneV)>>          \* the bound name itself
+    [] c = "ifset-x-value" -> <<Set("iv", IfSet("x", WInt, two, V("x"), I(0))), Asg("=", V("inside"), V("iv"))>>
+    [] c = "match-ty" -> <<Match(five, <<ArmTy("y", WInt, Block(decl \o <<Rec>>))>>)>>
+    [] c = "match-ty-x" -> <<Match(two, <<ArmTy("x", WInt, Block(<<Rec>>))>>)>>
+    [] c = "match-ty-x-value" -> <<Set("iv", Match(two, <<ArmTy("x", WInt, V("x"))>>)), Asg("=", V("inside"), V("iv"))>>
+    [] c = "match-val" -> <<Match(five, <<ArmVal(<<I(5)>>, Block(decl \o <<Rec>>)), ArmOther(Block(<<I(0)>>))>>)>>
+    [] c = "match-other" -> <<Match(five, <<ArmVal(<<I(6)>>, Block(<<I(0)>>)), ArmOther(Block(decl \o <<Rec>>))>>)>>
     [] c = "loop"    -> <<Loop(Block(decl \o <<Rec, Break>>))>>
     [] c = "while"   -> <<Set("k", MutE(WInt, I(0))), While(Bin("<", Deref(V("k")), I(2)), Block(decl \o <<Rec, Asg("+=", V("k"), I(1))>>))>>
     [] c = "whileset" -> <<Set("k", MutE(WInt, I(0))),
                            FnDecl("nx", <<>>, WMulti(<<WInt, WVoid>>), <<Asg("+=", V("k"), I(1)), If1(Bin(">", Deref(V("k")), I(1)), Ret0), Ret(I(2))>>),
                            WhileSet("x", WInt, CallE(V("nx"), <<>>), Block(<<Rec>>))>>
     [] c = "for"     -> <<For("e", IterE(ArrE(<<I(7)>>)), Block(decl \o <<Rec>>))>>
-    [] c = "for-x"   -> <<For("x", IterE(ArrE(<<I(2)>>)), Block(<<Rec>>))>>              \* the loop variable itself
+    [] c = "for-x"   -> <<For("x", IterE(ArrE(<<two>>)), Block(<<Rec>>))>>              \* the loop variable itself
     [] c = "fn"      -> <<FnDecl("fb", <<>>, WVoid, decl \o <<Rec>>), CallE(V("fb"), <<>>)>>
-    [] c = "fn-param" -> <<FnDecl("fb", <<P("x", WInt)>>, WVoid, <<Rec>>), CallE(V("fb"), <<H(2)>>)>>
+    [] c = "fn-param" -> <<FnDecl("fb", <<P("x", WInt)>>, WVoid, <<Rec>>), CallE(V("fb"), <<two>>)>>
     [] c = "lambda"  -> <<CallE(FnE(<<>>, WVoid, decl \o <<Rec>>), <<>>)>>
+Construct(c, decl) == ConstructF(c, decl, H(2), H(5))
 Constructs == {"block", "mod", "if", "else", "ifset", "match-ty", "match-val", "match-other", "loop", "while", "for", "fn", "lambda"}
-BoundByConstruct == {"ifset-x", "match-ty-x", "whileset", "for-x", "fn-param"}
+BoundByConstruct == {"ifset-x", "ifset-x-value", "match-ty-x", "match-ty-x-value", "whileset", "for-x", "fn-param"}
+
+T3Ty == WTup(<<WInt, WInt, WInt>>)
+\* the same grid inside a closure: outer x, the inner value and the scrutinee are CAPTURED parameters of the
+\* function that creates the closure (constants when the closure body is specialised)
+InClosure(body) ==
+  <<FnDecl("mk", <<P("x", WInt), P("v", WInt), P("w", WInt)>>, WFn(<<>>, T3Ty),
+           <<Ret(FnE(<<>>, T3Ty, <<Set("b", V("x")), Set("inside", MutE(WInt, I(0)))>> \o body
+                                    \o <<Ret(TupE(<<V("b"), Deref(V("inside")), V("x")>>))>>))>>),
+    CallE(CallE(V("mk"), <<H(1), H(2), H(5)>>), <<>>)>>
 
 ShadowCases ==
   {Case("shadow-" \o c \o "-" \o d \o "-" \o o,
@@ -60,6 +75,10 @@ ShadowCases ==
         <<Set("x", Outer[o]), Set("b", V("x")), Set("inside", MutE(WInt, I(0)))>>
           \o Construct(c, <<>>) \o <<TupE(<<V("b"), Deref(V("inside")), V("x")>>)>>,
         T3(1, 2, 1)) : c \in BoundByConstruct, o \in DOMAIN Outer}
+  \cup {Case("shadow-closure-" \o c \o "-" \o d,
+        InClosure(ConstructF(c, InnerDeclF(V("v"))[d], V("v"), V("w"))), T3(1, 2, 1)) : c \in Constructs, d \in DOMAIN InnerDecl}
+  \cup {Case("shadow-closure-" \o c,
+        InClosure(ConstructF(c, <<>>, V("v"), V("w"))), T3(1, 2, 1)) : c \in BoundByConstruct}
 
 \* ---------------------------------------------------------------- (B) capture
 GetX == FnE(<<>>, WInt, <<Ret(V("x"))>>)
